@@ -346,7 +346,7 @@ pub fn main(args: &[String]) {
         let mut src = plain.clone();
         let mut tag = String::from("plain");
         if i % 4 != 0 {
-            let (t, items) = crate::extras::extras(&mut rng, &m, prof.option);
+            let (t, items) = crate::extras::extras_with(&mut rng, &m, prof.option, Some(i / 3 + i));
             let with = crate::extras::splice(&src, &items);
             if tool::run_backend(&with, target).lowering_errors.is_empty() {
                 src = with;
